@@ -37,7 +37,7 @@ prop("C02", NEC + "Clauses: token-range to text-range conversions unwrap first()
      "predefined entries have the empty range); the process is terminated only at the three sanctioned places.",
      [{"rule": "EMPTY-RANGE-GUARD", "floor": 2}, {"rule": "LOOKUP-NOPANIC", "floor": 14},
       {"rule": "ENTRY-GUARD", "floor": 6}, {"rule": "WHO-MAY", "filter": tag("exit"), "floor": 5},
-      {"rule": "TOKEN-RANGE-SOURCE", "floor": 38}, {"rule": "INDEX-ELEM", "floor": 30},
+      {"rule": "TOKEN-RANGE-SOURCE", "floor": 11}, {"rule": "INDEX-ELEM", "floor": 30},
       {"rule": "BUILTIN-SET", "floor": 2}])
 
 prop("C03", NEC + "Clauses: each of the 27 build/semantic message kinds has an emitting site under table::* and its own "
@@ -54,7 +54,7 @@ prop("C04", NEC + "Clauses: shape of the precedence-climbing parser (levels, loo
      "consumption only inside the comment-skipping token parsers; doc comments are consumed inside the node's info(..) range "
      "(DOC-IN-RANGE); a rebuilt Reference carries the sum of the offsets it unwraps (FRAME S-ref in parser.rs / parser/utility.rs).",
      [{"rule": "PARSE-SHAPE", "floor": 18}, {"rule": "TABLES", "filter": tag("T5"), "floor": 23},
-      {"rule": "NOCONSUME", "filter": tag("take"), "floor": 37}, {"rule": "DOC-IN-RANGE", "floor": 5},
+      {"rule": "NOCONSUME", "filter": tag("take"), "floor": 4}, {"rule": "DOC-IN-RANGE", "floor": 5},
       {"rule": "FRAME", "filter": files("parser.rs", "utility.rs"), "floor": 3}])
 
 prop("C05", NEC + "Clauses: the five synchronisation sets are nested and all contain proc/type/eof, each error "
@@ -66,7 +66,7 @@ prop("C06", NEC + "Clauses: alt(..) order vs. prefix relation of static lexemes 
      "lexed exactly once through the macro of its class, class order, exactly one Eof; token ranges are the ranges of the "
      "consumed input (TOKEN-RANGE-SOURCE); the keyword boundary test uses the identifier continuation class (KEYWORD-BOUNDARY).",
      [{"rule": "TABLES", "filter": tag("T1", "T3"), "floor": 37}, {"rule": "EOF-ONCE", "floor": 3},
-      {"rule": "TOKEN-RANGE-SOURCE", "floor": 38}, {"rule": "KEYWORD-BOUNDARY", "floor": 10}])
+      {"rule": "TOKEN-RANGE-SOURCE", "floor": 11}, {"rule": "KEYWORD-BOUNDARY", "floor": 2}])
 
 prop("C07", NEC + "Clauses: a token relocated to a new range relocates its lexical errors too (TOKEN-ERRORS); the "
      "look-ahead table covers every lexeme that a following character can extend (T2); byte, char and UTF-16 lengths "
